@@ -81,6 +81,10 @@ func (comp *Compiler) Compile(stmts []*gripql.GraphStatement, opts *gdbi.Compile
 		return cmpl.Compile(stmts, opts)
 	}
 
+	if err := core.Validate(stmts, opts); err != nil {
+		return &Pipeline{}, fmt.Errorf("invalid statments: %s", err)
+	}
+
 	procs := []gdbi.Processor{}
 	query := mongo.Pipeline{}
 	startCollection := ""
@@ -534,6 +538,9 @@ func (comp *Compiler) Compile(stmts []*gripql.GraphStatement, opts *gdbi.Compile
 				return &Pipeline{}, fmt.Errorf(`"hasLabel" statement is only valid for edge or vertex types not: %s`, lastType.String())
 			}
 			labels := protoutil.AsStringList(stmt.HasLabel)
+			if len(labels) == 0 {
+				return &Pipeline{}, fmt.Errorf(`no labels provided to "HasLabel" statement`)
+			}
 			ilabels := make([]interface{}, len(labels))
 			for i, v := range labels {
 				ilabels[i] = v
@@ -548,6 +555,9 @@ func (comp *Compiler) Compile(stmts []*gripql.GraphStatement, opts *gdbi.Compile
 				return &Pipeline{}, fmt.Errorf(`"hasId" statement is only valid for edge or vertex types not: %s`, lastType.String())
 			}
 			ids := protoutil.AsStringList(stmt.HasId)
+			if len(ids) == 0 {
+				return &Pipeline{}, fmt.Errorf(`no ids provided to "HasId" statement`)
+			}
 			iids := make([]interface{}, len(ids))
 			for i, v := range ids {
 				iids[i] = v
@@ -563,6 +573,9 @@ func (comp *Compiler) Compile(stmts []*gripql.GraphStatement, opts *gdbi.Compile
 			}
 			hasKeys := bson.M{}
 			keys := protoutil.AsStringList(stmt.HasKey)
+			if len(keys) == 0 {
+				return &Pipeline{}, fmt.Errorf(`no keys provided to "HasKey" statement`)
+			}
 			for _, key := range keys {
 				key = jsonpath.GetJSONPath(key)
 				key = strings.TrimPrefix(key, "$.")
@@ -718,6 +731,9 @@ func (comp *Compiler) Compile(stmts []*gripql.GraphStatement, opts *gdbi.Compile
 			lastType = gdbi.PathData
 
 		case *gripql.GraphStatement_Unwind:
+			if lastType != gdbi.VertexData && lastType != gdbi.EdgeData {
+				return &Pipeline{}, fmt.Errorf(`"unwind" statement is only valid for edge or vertex types not: %s`, lastType.String())
+			}
 			f := strings.TrimPrefix(stmt.Unwind, "$.")
 			query = append(query,
 				bson.D{primitive.E{Key: "$unwind", Value: "$data." + f}})
@@ -785,6 +801,7 @@ func (comp *Compiler) Compile(stmts []*gripql.GraphStatement, opts *gdbi.Compile
 				if _, ok := aggNames[a.Name]; ok {
 					return &Pipeline{}, fmt.Errorf("duplicate aggregation name '%s' found; all aggregations must have a unique name", a.Name)
 				}
+				aggNames[a.Name] = nil
 			}
 			aggs := bson.M{}
 			for _, a := range stmt.Aggregate.Aggregations {
